@@ -57,9 +57,9 @@ def check_case(case, ctr):
     for i, c in enumerate(al):
         ctr['calls'] += 3
         eo, ep = case.olab(olabs[i]), case.plab(plabs[i])
-        if c.objects != eo or type(c.objects) is not tuple:
+        if tuple(c.objects) != eo:
             bad('object-labels', eo, c.objects, concept=i)
-        if c.properties != ep or type(c.properties) is not tuple:
+        if tuple(c.properties) != ep:
             bad('property-labels', ep, c.properties, concept=i)
         if len(eo) > 1 or len(ep) > 1:
             ctr['hit_shared_label'] += 1
